@@ -124,6 +124,14 @@ def cases(draw, tier):
         exprs += [[draw(st.sampled_from(['time_ge', 'time_ge', 'time_eq'])), draw(st.integers(20, 60)) / 10]
                   for _ in range(draw(st.integers(1, 2)))]
     waiters = []
+    # condition *objects* shared by several waits (by several waiters, or by one waiter again later)
+    conds = [x for x in exprs if draw(st.integers(0, 2)) == 0]
+
+    def pick():
+        x = exprs[draw(st.integers(0, len(exprs) - 1))]
+        if x in conds and draw(st.booleans()):
+            return ['named', conds.index(x)]
+        return x
     for j in range(draw(st.integers(1, 4) if not decimal else st.integers(3, 6))):
         steps = []
         off = draw(st.sampled_from([0, 0, 0.25, 0.5, 1, 1.5, 2, 3])) if not decimal else draw(st.integers(0, 30)) / 10
@@ -131,10 +139,10 @@ def cases(draw, tier):
             steps.append({'op': 'sleep', 'd': off})
         for _ in range(draw(st.integers(0, 2))):
             steps.append({'op': 'instant'})
-        steps.append({'op': 'await', 'e': exprs[draw(st.integers(0, len(exprs) - 1))]})
+        steps.append({'op': 'await', 'e': pick()})
         if draw(st.integers(0, 2)) == 0:
-            steps.append({'op': 'sleep', 'd': 0.25})
-            steps.append({'op': 'await', 'e': exprs[draw(st.integers(0, len(exprs) - 1))]})
+            steps.append({'op': 'sleep', 'd': draw(st.sampled_from([0.25, 0.25, 1, 2]))})
+            steps.append({'op': 'await', 'e': pick()})
         waiters.append({'name': 'w%d' % j, 'steps': steps})
     def controller(times):
         ctl = []
@@ -182,10 +190,64 @@ def cases(draw, tier):
     hd = {'name': 'hd', 'steps': [{'op': 'sleep', 'd': draw(st.sampled_from([0.125, 0.625, 1.375, 2.125]))}]}
     blk = {'op': 'scope', 'name': 'S', 'children': [hd] + [{'name': 'ctl2', 'steps': ctl2}] + waiters + [{'name': 'ctl', 'steps': ctl}], 'body': []}
     prog = {'start': 0, 'objs': {'flags': nflags, 'tracked': [draw(st.integers(0, 3)) for _ in range(ntr)],
+                                 'conds': conds,
                                  'resources': [{'kind': 'res', 'name': 'R', 'levels': {'a': draw(st.integers(0, 3)),
                                                                                        'b': draw(st.integers(0, 3))}}]},
             'roots': [{'name': 'r0', 'steps': [blk]}]}
-    return {'prog': prog, 'exprs': exprs}
+    targets = [w['name'] for w in waiters]
+    faults = draw(st.lists(st.fixed_dictionaries({'k': st.integers(0, 200), 'target': st.sampled_from(targets), 'token': st.just([1])}),
+                           max_size=2)) if draw(st.booleans()) else []
+    return {'prog': prog, 'exprs': exprs, 'faults': faults}
+
+
+@st.composite
+def reuse_cases(draw):
+    """One condition *object* with a history: a first waiter is served (or cancelled right after it subscribed), the
+    condition turns false again while nobody waits, a later waiter awaits the same object, it turns true again."""
+    kind = draw(st.sampled_from(['tcmp', 'flag', 'nested', 'nested', 'and', 'rcmp', 'notflag']))
+    if kind == 'tcmp':
+        cond, on, off = ['tcmp', 0, '>=', 2], [{'op': 'tset', 'i': 0, 'v': 3}], [{'op': 'tset', 'i': 0, 'v': 0}]
+    elif kind == 'flag':
+        cond, on, off = ['flag', 0], [{'op': 'set_flag', 'i': 0, 'v': True}], [{'op': 'set_flag', 'i': 0, 'v': False}]
+    elif kind == 'notflag':
+        cond, on, off = ['not', ['flag', 0]], [{'op': 'set_flag', 'i': 0, 'v': False}], [{'op': 'set_flag', 'i': 0, 'v': True}]
+    elif kind == 'nested':
+        cond = ['or', ['and', ['flag', 0], ['flag', 1]], ['flag', 2]]
+        on = [{'op': 'set_flag', 'i': 0, 'v': True}, {'op': 'set_flag', 'i': 1, 'v': True}]
+        off = [{'op': 'set_flag', 'i': draw(st.integers(0, 1)), 'v': False}]
+    elif kind == 'and':
+        cond = ['and', ['flag', 0], ['tcmp', 0, '>=', 2]]
+        on, off = [{'op': 'set_flag', 'i': 0, 'v': True}, {'op': 'tset', 'i': 0, 'v': 2}], [{'op': 'tset', 'i': 0, 'v': 1}]
+    else:
+        cond = ['rcmp', 'R', '>=', {'a': 2}]
+        on, off = [{'op': 'increase', 'r': 'R', 'amounts': {'a': 2}}], [{'op': 'decrease', 'r': 'R', 'amounts': {'a': 2}}]
+    exprs = [cond]
+    times = sorted(draw(st.lists(st.sampled_from([1, 2, 3, 4, 5, 6, 7]), min_size=3, max_size=5, unique=True)))
+    ctl = [{'op': 'bools', 'exprs': exprs}]
+    if kind == 'notflag':
+        ctl = [{'op': 'set_flag', 'i': 0, 'v': True}] + ctl
+    for j, t in enumerate(times):
+        ctl.append({'op': 'at_eq', 't': t})
+        for o in (on if j % 2 == 0 else off):
+            ctl.append(dict(o))
+            if draw(st.integers(0, 3)) == 0:
+                ctl.append({'op': 'instant'})
+        ctl.append({'op': 'bools', 'exprs': exprs})
+    waiters = []
+    for j in range(draw(st.integers(2, 4))):
+        at = draw(st.sampled_from([0, 0, 0.5, 1.5, 2.5, 3.5, 4.5, 5.5]))
+        steps = ([{'op': 'sleep', 'd': at}] if at else []) + [{'op': 'await', 'e': ['named', 0]}]
+        if draw(st.booleans()):
+            steps += [{'op': 'sleep', 'd': draw(st.sampled_from([0.5, 1, 1.5]))}, {'op': 'await', 'e': ['named', 0]}]
+        waiters.append({'name': 'w%d' % j, 'steps': steps})
+    hd = {'name': 'hd', 'steps': [{'op': 'sleep', 'd': 0.125}]}
+    blk = {'op': 'scope', 'name': 'S', 'children': [hd] + waiters + [{'name': 'ctl', 'steps': ctl}], 'body': []}
+    prog = {'start': 0, 'objs': {'flags': 3, 'tracked': [0, 0], 'conds': [cond],
+                                 'resources': [{'kind': 'res', 'name': 'R', 'levels': {'a': 0, 'b': 1}}]},
+            'roots': [{'name': 'r0', 'steps': [blk]}]}
+    # the first waiter is cancelled at each of its early activation boundaries (it has subscribed, its helper has not run)
+    faults = [{'k': k, 'target': 'w0', 'token': [1]} for k in range(2, 2 + draw(st.integers(0, 14)))]
+    return {'prog': prog, 'exprs': exprs, 'faults': faults}
 
 
 class C08(Check):
@@ -209,17 +271,38 @@ class C08(Check):
     design_ref = 'DESIGN.md section 3, C08'
 
     def strategy(self, tier):
-        return cases(tier)
+        return st.one_of(cases(tier), cases(tier), cases(tier), cases(tier), cases(tier), reuse_cases())
 
     def run_case(self, case, tier='quick'):
         out = Outcome()
-        out.evals = 1
+        out.evals = 0
+        n = self._one(out, case, None)
+        for f in case.get('faults', ()):
+            # a waiter is cancelled at an activation boundary: the others (also those that share a condition *object*
+            # with it, now or later) must not notice
+            if n:
+                self._one(out, case, [dict(f, k=f['k'] % (n + 1))])
+        return out
+
+    def _one(self, out, case, faults):
+        out.evals += 1
         prog = case['prog']
-        it, oc, exc, p = execute(prog, Probe(b_step=6000, b_total=60000))
+        ctx = '' if not faults else ' faults=%r' % (faults,)
+        it, oc, exc, p = execute(prog, Probe(b_step=6000, b_total=60000), faults=faults or ())
         if oc != 'ok':
-            out.fail('run_outcome', '%s:%s' % (oc, type(exc).__name__), 'run() ended with %s %r' % (oc, exc))
-            return out
+            out.fail('run_outcome', '%s:%s' % (oc, type(exc).__name__), 'run() ended with %s %r%s' % (oc, exc, ctx))
+            return p.k
         log = [e for e in it.log if e[0] <= it.end_seq]
+        conds = prog['objs'].get('conds', [])
+
+        def resolve(x):
+            if x[0] == 'named':
+                return resolve(conds[x[1]])
+            if x[0] in ('and', 'or'):
+                return [x[0], resolve(x[1]), resolve(x[2])]
+            if x[0] == 'not':
+                return ['not', resolve(x[1])]
+            return x
         o = prog['objs']
         # ---- state timeline
         state = {'f': [False] * o['flags'], 't': list(o['tracked']), 'r': dict(o['resources'][0]['levels'])}
@@ -280,8 +363,10 @@ class C08(Check):
                     opened[(e[1], e[2])] = e
                 elif e[3] == 'ok' and (e[1], e[2]) in opened:
                     waits.append((opened.pop((e[1], e[2])), e))
+        gone = {e[1] for e in log if e[3] == 'fin'}
         for b in opened.values():
-            waits.append((b, None))
+            if b[1] not in gone:         # (a cancelled waiter is not waiting any more)
+                waits.append((b, None))
         acts = {a['name']: a for a in prog['roots'][0]['steps'][0]['children']}
         step_end = {}       # time -> last seq at that time
         for e in log:
@@ -289,13 +374,15 @@ class C08(Check):
         times = sorted(step_end)
         for b, okev in waits:
             node = acts[b[1]]['steps'][b[2][0]]
-            x = node['e']
+            x = resolve(node['e'])
+            if node['e'][0] == 'named':
+                out.features.add('shared_condition_object')
             sh = shape(x)
             # (1) resumes only when true; lets others run
             if okev is not None:
                 if not ev(x, state_at(okev[0]), okev[4], hd_done(okev[0])):
-                    out.fail('resume', 'resumed_while_false:%s' % sh, '%s resumed from await %r at t=%r seq %d but it is false; state=%r' % (
-                        b[1], x, okev[4], okev[0], state_at(okev[0])))
+                    out.fail('resume', 'resumed_while_false:%s' % sh, '%s resumed from await %r at t=%r seq %d but it is false; state=%r%s' % (
+                        b[1], x, okev[4], okev[0], state_at(okev[0]), ctx))
                 if okev[6] == b[6]:
                     out.fail('resume', 'no_yield:%s' % sh, '%s: await %r completed without suspending' % (b[1], x))
             # (2) never left waiting at the end of a step in which it holds
@@ -313,14 +400,14 @@ class C08(Check):
                 if ev(x, state_at(seq_end), t, hd_done(seq_end)):
                     out.fail('missed', 'left_waiting:%s' % sh, '%s waits for %r since t=%r (seq %d); at the end of step t=%r it holds '
                              '(state=%r) but the waiter %s' % (b[1], x, b[4], b[0], t, state_at(seq_end),
-                                                              'never resumed' if okev is None else 'resumed only at t=%r' % okev[4]))
+                                                              ('never resumed' if okev is None else 'resumed only at t=%r' % okev[4]) + ctx))
                     break
             if x[0] in ('and', 'or', 'not') and any(s > b[0] for s in changed_seqs):
                 out.nontrivial = True
             out.features.add('shape_' + sh)
             if has_moment(x):
                 out.features.add('moment')
-        return out
+        return p.k
 
 
 CHECK = C08()
